@@ -1712,7 +1712,7 @@ def lazy_dropped_channel_family():
     None before evaluating its value, so the template is instantiated with the parameter absent - while Spec.denote
     evaluates every value (None).  Malformed stream (non-strict): the program is compared with the denotation under the
     completed parameters (Corr.CLazy), the symbolic side under the given ones.  A dropped TABLE channel is evaluated by the
-    code (get_entries_instantiated) and raises: both sides reject, ordinary malformed case."""
+    code (get_entries_instantiated) and raises: both sides reject, ordinary malformed case.  Second class: see `never` below."""
     cs = []
     tab = {'k': 'table', 'ch': {'A': [[C(0), C(3), 'hold'], [C(1), V('i1'), 'linear'], [C(2), C(1), 'hold']],
                                 'B': [[C(0), C(2), 'hold'], [C(2), V('i1'), 'linear']]}}
@@ -1735,6 +1735,14 @@ def lazy_dropped_channel_family():
                     ('arith', {'k': 'arithl', 'b': two, 'op': '*', 's': {'all': C(2)}})):
         cs.append({'kind': 'pulse', 'pt': t, 'params': {'a': '3/4'}, 'pad': '1', 'src': 'malformed',
                    'shapes': ['lazy-dropped-channel:const2:' + wrap]})
+    # a zero-fold repetition whose body's DURATION mentions the missing parameter: sympy reduces 0*(q + 1) to 0, so duration
+    # and pad_to evaluate in the code; the model's strict 0 * None does not (Corr.pad_den takes the code's evaluated duration)
+    never = {'k': 'rep', 'n': C(0), 'b': {'k': 'table', 'ch': {'A': [[C(0), C(0), 'hold'], [add(V('q'), C(1)), V('a'), 'linear']]}}}
+    fx = {'k': 'func', 'c': 'A', 'd': C(1), 'coef': [V('a'), C(-1)]}
+    cx = {'k': 'const', 'd': C(1), 'vals': {'A': C(2)}}
+    for nm, ps in (('first', [never, fx]), ('middle', [cx, never, fx]), ('last', [fx, never])):
+        cs.append({'kind': 'pulse', 'pt': {'k': 'seq', 'ps': ps}, 'params': {'a': '3/4'}, 'pad': '2', 'src': 'malformed',
+                   'shapes': ['lazy-zero-fold-duration:' + nm]})
     return cs
 
 
